@@ -196,8 +196,8 @@ M('C08', 'read-notebook-swallows-always', UT,
   "            if on_empty is None:\n                raise\n            # Reraise if file is not empty\n            if isinstance(f, str):\n                with io.open(f, encoding='utf-8') as fo:\n                    if len(fo.read(10)) != 0:\n                        raise\n",
   "            if on_empty is None:\n                raise\n", 'R08.3')
 M('C08', 'work-after-write', APP,
-  "        nbformat.write(merged, mfn)\n        logger.info(\"Merge result written to %s\", mfn)",
-  "        nbformat.write(merged, mfn)\n        nbformat.validate(merged)", 'R08.4')
+  "        _write_output(mfn, text)\n        logger.info(\"Merge result written to %s\", mfn)",
+  "        _write_output(mfn, text)\n        nbformat.validate(merged)", 'R08.4')
 T('C08', 'twin-int-bool', APP, "    returncode = 1 if conflicted else 0", "    returncode = int(bool(conflicted))")
 T('C08', 'twin-rename-returncode', APP, "    returncode = 1 if conflicted else 0\n", "    status = 1 if conflicted else 0\n",
   edits=[(APP, "    return returncode\n", "    return status\n")])
@@ -922,8 +922,8 @@ M('C08', 'conflict-list-made-lazy-and-read-twice', APP, "    conflicted = [d for
   "    conflicted = (d for d in decisions if d.conflict)\n    for d in conflicted:\n        logger.debug('conflict at %s', d.common_path)\n\n    returncode = 1 if any(conflicted) else 0\n", 'R08.13')
 T('C08', 'twin-conflict-list-logged-then-tested', APP, "    conflicted = [d for d in decisions if d.conflict]\n\n    returncode = 1 if conflicted else 0\n",
   "    conflicted = [d for d in decisions if d.conflict]\n    for d in conflicted:\n        logger.debug('conflict at %s', d.common_path)\n\n    returncode = 1 if conflicted else 0\n")
-M('C08', 'failed-write-removes-the-output', APP, "        nbformat.write(merged, mfn)\n", "        try:\n            nbformat.write(merged, mfn)\n        except Exception:\n            if os.path.isfile(mfn):\n                os.remove(mfn)\n            raise\n", 'R08.14')
-T('C08', 'twin-failed-write-logged-and-reraised', APP, "        nbformat.write(merged, mfn)\n", "        try:\n            nbformat.write(merged, mfn)\n        except Exception:\n            logger.error('could not write %s', mfn)\n            raise\n")
+M('C08', 'failed-write-removes-the-output', APP, "        _write_output(mfn, text)\n", "        try:\n            _write_output(mfn, text)\n        except Exception:\n            if os.path.isfile(mfn):\n                os.remove(mfn)\n            raise\n", 'R08.14')
+T('C08', 'twin-failed-write-logged-and-reraised', APP, "        _write_output(mfn, text)\n", "        try:\n            _write_output(mfn, text)\n        except Exception:\n            logger.error('could not write %s', mfn)\n            raise\n")
 M('C10', 'has-conflicted-behind-a-cached-flag', DEC, "        return any(d.conflict for d in self.decisions)", "        return getattr(self, '_seen_conflict', False) and any(d.conflict for d in self.decisions)", 'R10.10')
 T('C10', 'twin-has-conflicted-via-get-conflicted', DEC, "        return any(d.conflict for d in self.decisions)", "        return bool(self.get_conflicted())")
 M('C13', 'inserted-cells-list-extended-in-place', STR, "    lcells = local_diff[0].valuelist + base_cells[start : start + lkeep]\n",
@@ -985,4 +985,8 @@ M('C03', 'both-sided-removal-branch-dropped', MG, "        if len(ldiff) == 2 an
   "        if len(ldiff) == 2 or len(rdiff) == 2:", 'R03.28')
 M('C03', 'transients-none-when-not-ignored', MNB, "    ignore_transients = args.ignore_transients if args else True\n    if ignore_transients:\n", "    ignore_transients = args.ignore_transients if args else True\n    strategies.transients = None if not ignore_transients else []\n    if ignore_transients:\n", 'R03.29')
 T('C03', 'twin-transients-empty-list-when-not-ignored', MNB, "    ignore_transients = args.ignore_transients if args else True\n    if ignore_transients:\n", "    ignore_transients = args.ignore_transients if args else True\n    strategies.transients = [] if not ignore_transients else []\n    if ignore_transients:\n")
-M('C04', 'decisions-file-in-locale-encoding', APP, 'with io.open(mfn, "w", encoding="utf8") as outfile:', 'with io.open(mfn, "w") as outfile:', 'R04.12')
+M('C04', 'decisions-file-in-locale-encoding', APP, '    data = text.encode("utf8")\n    with io.open(filename, "wb") as outfile:\n        outfile.write(data)', '    with io.open(filename, "w") as outfile:\n        outfile.write(text)', 'R04.12')
+
+M('C08', 'output-opened-before-serialising', APP, '        text = nbformat.writes(merged)\n        if not text.endswith("\\n"):\n            text += "\\n"\n        _write_output(mfn, text)\n', '        nbformat.write(merged, mfn)\n', 'R08.16')
+M('C08', 'stdout-notebook-with-raw-non-ascii', APP, '            ensure_ascii=encoding.replace("-", "").replace("_", "") != "utf8")', '            ensure_ascii=False)', 'R08.11')
+T('C08', 'twin-stdout-notebook-always-ascii', APP, '            ensure_ascii=encoding.replace("-", "").replace("_", "") != "utf8")', '            ensure_ascii=True)')
